@@ -12,7 +12,8 @@ package dns
 //@   callsite "WriteByte" started: arg1 == 92 || ghost(dst, "len") > 0 [C03 C05]
 // a Name prints through sprintName, whatever it holds (special and unprintable octets are escaped there)
 //@ func (Name).String [C03 C05]
-//@   exit through: called("sprintName") && same(ret0, callres("sprintName"))
+//@   exit through: called("sprintName")
+//@   exit same: called("sprintName") ==> same(ret0, callres("sprintName"))
 //@ func sprintTxtOctet [C02 C05]
 //@   loop 1 invariant 0 <= i
 //@ func sprintTxt [C02 C05]
